@@ -330,8 +330,22 @@ def main_check(mod, tier: str, seed: int, nproc: int | None = None) -> int:
     deadline = t0 + budget_s
     nproc = nproc or int(os.environ.get('VERIF_NPROC', '16'))
     ctx = mp.get_context('fork')
+    # Shards are collected as they finish; a shard that is still running after the wall budget plus a grace
+    # period is abandoned (pool terminated) and the run is reported as INCONCLUSIVE for that shard - a time
+    # budget is never a verdict.
+    results = []
+    unfinished = 0
+    grace = float(os.environ.get('VERIF_WALL_GRACE', '180'))
     with ctx.Pool(min(nproc, max(1, len(jobs))), maxtasksperchild=1) as pool:
-        results = pool.map(_run_shard, [(mod.__name__, j, deadline) for j in jobs], chunksize=1)
+        it = pool.imap_unordered(_run_shard, [(mod.__name__, j, deadline) for j in jobs], chunksize=1)
+        for _ in jobs:
+            try:
+                results.append(it.next(timeout=max(1.0, deadline + grace - time.time())))
+            except mp.TimeoutError:
+                unfinished = len(jobs) - len(results)
+                pool.terminate()
+                break
+    results.sort(key=lambda r: canon(r.get('job')))
 
     herr = [r for r in results if 'harness_error' in r]
     if herr:
@@ -370,6 +384,11 @@ def main_check(mod, tier: str, seed: int, nproc: int | None = None) -> int:
             else:
                 extra.setdefault(k, v)
         expired = expired or r['expired']
+    if unfinished:
+        expired = True
+        done = {canon(r['job']) for r in results}
+        notes.append(f'{unfinished} shard(s) abandoned after wall budget + grace: '
+                     + '; '.join(canon(j)[:120] for j in jobs if canon(j) not in done)[:600])
     for pc in per_check.values():
         samples.extend(pc['samples'])
 
